@@ -6,10 +6,10 @@ CONSTANTS
   Mode = "enum"
   MaxCost = 1000000000
   NE = 0
-  TagSymF = {0, 1, 4, 7}
-  TagRefF = {0, 1, 2, 31}
+  TagSymF = {0, 1, 2, 4, 7}
+  TagRefF = {0, 1, 2, 5, 31}
   DataBytes = {97, 98}
-  UintLead = {128, 129, 130, 132, 133, 136, 137, 64, 15, 3}
+  UintLead = {128, 129, 130, 132, 133, 136, 137, 64, 16, 15, 3}
   UintCont = {0, 4, 253, 255}
   ElemSet <- ElemsTiny
   SubstVals = {0}
